@@ -207,6 +207,10 @@ def variants(prog, opts, rng):
         out.append({"mode": "probe", "sels": [{"focus": n, "ctx": []} for n in names]})
     if "generic" in vs:
         out.append({"mode": "probe", "sels": [{"focus": "$x", "ctx": []}]})
+    if "totals" in vs and names:
+        out.append({"mode": "totalprobe", "sels": [{"focus": names[0], "ctx": []}]})
+        if len(names) > 1:
+            out.append({"mode": "totalprobe", "sels": [{"focus": names[0], "ctx": names[1:3]}]})
     if "pairs" in vs:
         pairs = [(a, b) for a in names for b in names if a != b]
         rng.shuffle(pairs)
@@ -229,7 +233,11 @@ def variants(prog, opts, rng):
     if "meta" in vs:
         loopvars = sorted({n for s in I.walk(prog["body"]) if s["s"] == "for" for n in I.target_names(s["t"])})
         metas = ["#enter", "#exit", "#value", "#error", "#yield", "#receive"] + [f"#loop_{v}" for v in loopvars] + [f"#endloop_{v}" for v in loopvars]
-        out.append({"mode": "meta", "sels": [{"focus": m, "ctx": []} for m in metas]})
+        out.append({"mode": "meta", "sels": [{"focus": m, "ctx": []} for m in metas], "only": ""})
+        if "meta_single" in vs:
+            # each meta-variable probed alone: what is delivered must not depend on which others are instrumented
+            for m in metas:
+                out.append({"mode": "meta", "sels": [{"focus": m, "ctx": []}], "only": m})
     return out
 
 
@@ -243,7 +251,7 @@ def sel_text(fname, s):
 
 def run_variant(runner, var, script):
     rec = {"mode": var["mode"], "sels": var["sels"], "act_err": "", "log": [], "result": [], "streams": [],
-           "supply": var.get("supply", 0)}
+           "supply": var.get("supply", 0), "only": var.get("only", "")}
     mod = runner.load(twin=False)
     fn = getattr(mod, runner.name)
     try:
@@ -283,6 +291,15 @@ def run_variant(runner, var, script):
             with p:
                 rec["log"], rec["result"] = runner.call(mod, fn, script)
             rec["streams"] = [recs]
+        elif var["mode"] == "totalprobe":
+            # a focus-free probe (Total accumulator) that overrides nothing
+            env = {runner.name: fn}
+            s0 = var["sels"][0]
+            p_ = probing(f"{runner.name}({', '.join([s0['focus']] + s0['ctx'])})", env=env, raw=True)
+            recs = []
+            p_.subscribe(lambda d_: recs.append(1))
+            with p_:
+                rec["log"], rec["result"] = runner.call(mod, fn, script)
         elif var["mode"] == "meta":
             env = {runner.name: fn}
             merged = []
